@@ -52,6 +52,8 @@ def spawnRetStr : SpawnRet → String
   | .ok => "Ok" | .killed => "Err(killed)" | .nolink => "Err(nolink)"
   | .startup p n => s!"Err(startup:{if p then "panic" else "err"}-{n})"
   | .registered => "Err(registered)"
+  | .already => "Err(already)"
+  | .joinPanic => "Panic"
 
 def callResStr : CallRes → String
   | .pending => "Pending" | .success v => s!"Success({v})" | .senderError => "SenderError"
@@ -78,6 +80,7 @@ def renderOut (a : Nat) : Out → Option String
   | .ev (.fxForget k ok) => some s!"fx forget {k} {if ok then "Ok" else "NoPort"}"
   | .ev (.callRet k r) => some s!"call {k} {callResStr r}"
   | .ev (.waitRet w ready) => some s!"wait {w} {if ready then "Ready" else "Pending"}"
+  | .ev .instant => some "inst Ok"
   | .ev _ => none
   | .note s => some s
   | .eff _ => none
@@ -107,10 +110,13 @@ def renderWorld (w : World) (names groups : List String) : String :=
   let tabs := if tabs.isEmpty then "-" else " ".intercalate tabs
   s!"{sts} | run={run} | {tabs}"
 
-def renderLine (w : World) (names groups : List String) (own : List WOut) : String :=
+def renderLine (w : World) (names groups : List String) (own others : List WOut) : String :=
   let notes := own.filterMap fun (a, o) => renderOut a o
   let notes := if notes.isEmpty then "-" else "; ".intercalate notes
-  s!"{notes} | {renderWorld w names groups}"
+  -- actors killed by a `terminate()` during this op (hook note `treekill`), as a sorted extra field
+  let tk := sortNats ((own ++ others).filterMap fun (a, o) => if o == .ev .treeKill then some a else none)
+  let tail := if tk.isEmpty then "" else s!" | tk={showNats tk}"
+  s!"{notes} | {renderWorld w names groups}{tail}"
 
 /-! ### parsing ops -/
 
@@ -157,6 +163,19 @@ def parseOp? (line : String) : Option Op :=
     | ["sup", "-"] => pure (.spawn a none name loc)
     | ["sup", p] => do let p ← p.toNat?; pure (.spawn a (some p) name loc)
     | _ => none
+  | "spawninstant" :: a :: sup :: name :: kind => do
+    let loc := kind == ["kind=local"]
+    let a ← a.toNat?
+    let name ← match name.splitOn "=" with
+      | ["name", "-"] => some none
+      | ["name", n] => some (some n)
+      | _ => none
+    match sup.splitOn "=" with
+    | ["sup", "-"] => pure (.spawnInstant a none name loc)
+    | ["sup", p] => do let p ← p.toNat?; pure (.spawnInstant a (some p) name loc)
+    | _ => none
+  | ["link", a, p] => do pure (.link (← a.toNat?) (← p.toNat?))
+  | ["unlink", a, p] => do pure (.unlink (← a.toNat?) (← p.toNat?))
   | ["wait", w, a] => do pure (.wait (← w.toNat?) (← a.toNat?))
   | ["pollwait", w] => w.toNat?.map .pollWait
   | ["call", k, a] => do pure (.call (← k.toNat?) (← a.toNat?))
@@ -204,6 +223,8 @@ def parseSpawnRet? (t : String) : Option SpawnRet :=
   else if t == "Err(killed)" then some .killed
   else if t == "Err(nolink)" then some .nolink
   else if t == "Err(registered)" then some .registered
+  else if t == "Err(already)" then some .already
+  else if t == "Panic" then some .joinPanic
   else match t.splitOn "startup:" with
     | ["Err(", rest] =>
       match (rest.splitOn ")") with
@@ -227,7 +248,7 @@ def parseCallRes? (t : String) : Option CallRes :=
 def opActor (waits calls : List (Nat × Nat)) : Op → Nat
   | .case => 0
   | .spawn a _ _ _ | .pollSpawn a | .dropSpawn a | .poll a | .abort a | .resume a _ | .send a _
-  | .stop a _ | .kill a | .drain a | .wait _ a | .call _ a => a
+  | .stop a _ | .kill a | .drain a | .wait _ a | .call _ a | .spawnInstant a _ _ _ | .link a _ | .unlink a _ => a
   | .pollWait w => ((waits.find? (·.1 = w)).map (·.2)).getD 0
   | .pollCall k => ((calls.find? (·.1 = k)).map (·.2)).getD 0
 
@@ -256,8 +277,10 @@ def noteEvents (tgt : Nat) (op : Op) (note : String) : Option (List (Nat × Ev))
     | .stop a r => pure [(a, .stopRet false (.ofUser r) (x == "Ok"))]
     | .kill a => pure [(a, .killRet false (x == "Ok"))]
     | .drain a => pure [(a, .drainRet (x == "Ok"))]
-    | .spawn a _ _ _ | .pollSpawn a => do pure [(a, .spawnRet (← parseSpawnRet? x))]
+    | .spawn a _ _ _ | .pollSpawn a | .spawnInstant a _ _ _ => do pure [(a, .spawnRet (← parseSpawnRet? x))]
     | _ => none
+  | ["inst", "Ok"] => pure [(tgt, .instant)]
+  | ["sjoin", _] => pure []
   | "emit" :: p :: rest => do
     let p ← p.toNat?
     let e ← parseSupEv? rest
@@ -379,14 +402,15 @@ def step (which : Prop3) (st : St) (opLine impl : String) : St × StepOut :=
     -- names / groups are known to the harness from the op line
     let names := match op with
       | .spawn _ _ (some n) _ => addNew st.names n
+      | .spawnInstant _ _ (some n) _ => addNew st.names n
       | _ => st.names
     let groups := match op with
       | .resume _ sg => sg.fx.foldl (fun acc f => match f with | .joinGroup g => addNew acc g | _ => acc) st.groups
       | _ => st.groups
     let waits := match op with | .wait w a => st.waits ++ [(w, a)] | _ => st.waits
     let calls := match op with | .call k a => st.calls ++ [(k, a)] | _ => st.calls
-    let (w', own, _others) := st.w.step op
-    let model := renderLine w' names groups own
+    let (w', own, others) := st.w.step op
+    let model := renderLine w' names groups own others
     let hist := if op = .case then 0 else mixHash st.hist (hash opLine)
     -- implementation-derived events
     let tgt := opActor waits calls op
@@ -397,6 +421,7 @@ def step (which : Prop3) (st : St) (opLine impl : String) : St × StepOut :=
     let pre : List (Nat × Ev) := match op with
       | .spawn a _ _ true =>   -- the op line says the actor is thread-local (and it was created)
         if notes.any (fun n => hasSub n "enter") then [(a, .isLocal)] else []
+      | .spawnInstant a _ _ true => if notes.contains "inst Ok" then [(a, .isLocal)] else []
       | .abort a => if notes.contains "notask" then [] else [(a, .aborted)]
       | .dropSpawn a => if notes.contains "nospawn" then [] else [(a, .dropped)]
       | _ => []
@@ -404,6 +429,13 @@ def step (which : Prop3) (st : St) (opLine impl : String) : St × StepOut :=
       match noteEvents tgt op n with
       | some l => (acc.1 ++ l, acc.2)
       | none => (acc.1, true)) (pre, false)
+    -- actors killed by a `terminate()` inside this op (5th field `tk=a,b`)
+    let tkA : List Nat := match fields with
+      | _ :: _ :: _ :: _ :: f :: _ => match f.splitOn "=" with
+        | ["tk", v] => (natList? v).getD []
+        | _ => []
+      | _ => []
+    let evsR := evsR ++ tkA.map fun a => (a, Ev.treeKill)
     -- the end of a poll of a live loop task
     let evsR : List (Nat × Ev) := match op with
       | .poll a => if notes.contains "notask" then evsR else evsR ++ [(a, Ev.polled)]
@@ -438,7 +470,7 @@ def step (which : Prop3) (st : St) (opLine impl : String) : St × StepOut :=
     -- residue oracle, driver-level clauses about the registry: a name that the implementation showed as free
     -- can be taken; a name clash leaves every observable field as it was
     let fails := match which, op with
-      | .residue, .spawn _ _ (some n) _ =>
+      | .residue, .spawn _ _ (some n) _ | .residue, .spawnInstant _ _ (some n) _ =>
         let prevTabs := match st.prev.splitOn " | " with
           | _ :: _ :: _ :: f :: _ => parseTables f
           | _ => []
@@ -468,7 +500,7 @@ def step (which : Prop3) (st : St) (opLine impl : String) : St × StepOut :=
       | .c04 => hasSub impl "emit" || hasSub impl "ret Err(" || hasSub impl "join" || hasSub impl "cancelled"
       | .c02 => hasSub impl " handle " || ((match op with | .send _ _ | .call _ _ => true | _ => false) && (hasSub impl "ret Ok" || hasSub impl "Pending"))
                 || hasSub impl "fx sendself" || (isPoll && (match tgtA with | some a => !a.msgQ.isEmpty | none => false))
-      | .residue => ((match op with | .spawn _ _ _ _ | .pollSpawn _ => true | _ => false) && hasSub impl "ret Err(")
+      | .residue => ((match op with | .spawn _ _ _ _ | .pollSpawn _ | .spawnInstant _ _ _ _ => true | _ => false) && hasSub impl "ret Err(")
                 || ((match op with | .dropSpawn _ => true | _ => false) && !hasSub impl "nospawn")
                 || failedSpawn
     ({ w := w', mons, hist, names, groups, waits, calls, prev := impl },
